@@ -365,7 +365,7 @@ theorem frontEval_complete_const (t : Table) (x : Arg) (c : Int) :
     · intro h; cases h
     · rintro ⟨ev', h, _⟩; cases h
 
-theorem frontEval_noSuch {t : Table} {a : Arg} {n : Bytes} {a₁ : Arg} (h : frontEval t a = .noSuchVariable n a₁) :
+theorem frontEval_noSuch_eval {t : Table} {a : Arg} {n : Bytes} {a₁ : Arg} (h : frontEval t a = .noSuchVariable n a₁) :
     Simp.evaluateE (fun n => t.get n) Front.isRegister a = .nosuch n a₁ := by
   unfold frontEval evalIn at h
   cases he : Simp.evaluateE (fun n => t.get n) Front.isRegister a with
@@ -404,7 +404,7 @@ theorem frontEval_complete_mono {t₁ t₂ : Table} (hs : Table.Sub t₁ t₂) (
     | err e x => cases e <;> cases h
   simp only [frontEval, evalIn_complete_mono hs hn this]
 
-theorem frontEval_not_deferred {t : Table} (hn : Table.NoDef t) (a : Arg) (c : Bytes) (a₁ : Arg) :
+theorem frontEval_never_deferred {t : Table} (hn : Table.NoDef t) (a : Arg) (c : Bytes) (a₁ : Arg) :
     frontEval t a ≠ .deferred c a₁ := by
   intro h
   obtain ⟨ev, hev⟩ := evalIn_ok t a
@@ -419,18 +419,18 @@ theorem frontEval_not_deferred {t : Table} (hn : Table.NoDef t) (a : Arg) (c : B
 theorem growsS_number {t₁ t₂ : Table} (hs : Table.Sub t₁ t₂) (hn : Table.NoDef t₁) {k : Front.Kind}
     (hk : k.number = true) (a : Arg) : Front.GrowsS k (frontEval t₁) (frontEval t₂) a := by
   refine ⟨fun a' h => frontEval_complete_mono hs hn h, fun _ n a₁ h loc pos done hd => ?_,
-    fun c a₁ => frontEval_not_deferred hn a c a₁⟩
+    fun c a₁ => frontEval_never_deferred hn a c a₁⟩
   apply Front.getSim_number hk loc hd
   intro c
   rw [frontEval_complete_const, frontEval_complete_const]
-  exact Simp.const_retry (Table.sub_get hs) (Table.nodef_get hn) (frontEval_noSuch h) c none
+  exact Simp.const_retry (Table.sub_get hs) (Table.nodef_get hn) (frontEval_noSuch_eval h) c none
 
 /-- … and at every position under the exact condition `LeftStable` -/
 theorem growsS_stable {t₁ t₂ : Table} (hs : Table.Sub t₁ t₂) (hn : Table.NoDef t₁) (k : Front.Kind) {a : Arg}
     (hp : LeftStableArg t₁ t₂ a) : Front.GrowsS k (frontEval t₁) (frontEval t₂) a := by
   have hg : Front.Grows (frontEval t₁) (frontEval t₂) a := by
-    refine ⟨fun a' h => frontEval_complete_mono hs hn h, fun n a₁ h => ?_, fun c a₁ => frontEval_not_deferred hn a c a₁⟩
-    have h' := frontEval_noSuch h
+    refine ⟨fun a' h => frontEval_complete_mono hs hn h, fun n a₁ h => ?_, fun c a₁ => frontEval_never_deferred hn a c a₁⟩
+    have h' := frontEval_noSuch_eval h
     have : evalIn t₁ a = .ok (.noSuch n a₁) := by unfold evalIn; rw [h']
     exact frontEval_congr t₂ _ _ (data_retry_stable hs hn hp this)
   exact hg.toS k
@@ -464,7 +464,7 @@ theorem growsS_any {t₁ t₂ : Table} (hs : Table.Sub t₁ t₂) (hn : Table.No
       have hk : k.evals = false := by
         cases k <;> simp_all [Front.Kind.shape, Front.Kind.number, Front.Kind.evals]
       exact ⟨fun a' h => frontEval_complete_mono hs hn h, fun h => (by rw [hk] at h; cases h),
-        fun c a₁ => frontEval_not_deferred hn a c a₁⟩
+        fun c a₁ => frontEval_never_deferred hn a c a₁⟩
 
 theorem evalIn_complete_const (t : Table) (x : Arg) (c : Int) :
     evalIn t x = .ok (.complete (.const c)) ↔
